@@ -13,6 +13,7 @@ import (
 	"github.com/lightningnetwork/lnd/lnrpc"
 	"pgregory.net/rapid"
 
+	"verifharness/pbt"
 	"verifharness/stats"
 )
 
@@ -26,11 +27,16 @@ func genCltv(t *rapid.T) int64 {
 	).Draw(t, "cltv")
 }
 
-func TestC24DirectSingleHop(t *testing.T) {
+func TestC24DirectSingleHop(t *testing.T) { propC24DirectSingleHop(t) }
+
+// FuzzC24DirectSingleHop drives the same property body with Go's coverage-guided fuzzer (thorough tier).
+func FuzzC24DirectSingleHop(f *testing.F) { propC24DirectSingleHop(f) }
+
+func propC24DirectSingleHop(t testing.TB) {
 	col := stats.Get("C24.route")
 	pkA := "02" + strings.Repeat("11", 32)
 	pkB := "03" + strings.Repeat("22", 32)
-	rapid.Check(t, func(t *rapid.T) {
+	pbt.Run(t, func(t *rapid.T) {
 		payee := rapid.SampledFrom([]string{pkA, pkB}).Draw(t, "payee")
 		chanPeer := rapid.SampledFrom([]string{pkA, pkA, pkB}).Draw(t, "chanPeer")
 		amt := rapid.OneOf(rapid.Uint64Range(0, 5_000_000_000_000), rapid.SampledFrom([]uint64{0, 1, 999, 1000, 2_100_000_000_000_000_000})).Draw(t, "amountMsat")
